@@ -756,6 +756,10 @@ mod pattern_impl {
         haystack: &'t str,
         regex: &'r Regex,
         current_pos: usize,
+        // Where the next forward search starts. This is ahead of current_pos
+        // after a zero-width match, so that the skipped character is still
+        // reported as a Reject.
+        search_pos: usize,
         done: bool,
         // For reverse searching
         reverse_pos: usize,
@@ -768,6 +772,7 @@ mod pattern_impl {
                 haystack,
                 regex,
                 current_pos: 0,
+                search_pos: 0,
                 done: false,
                 reverse_pos: haystack.len(),
                 reverse_done: false,
@@ -799,7 +804,7 @@ mod pattern_impl {
             }
 
             // Try to find the next match starting from current position
-            if let Some(m) = self.regex.find_from(self.haystack, self.current_pos).next() {
+            if let Some(m) = self.regex.find_from(self.haystack, self.search_pos).next() {
                 let match_start = m.start();
                 let match_end = m.end();
 
@@ -813,11 +818,13 @@ mod pattern_impl {
 
                 // Return the match
                 self.current_pos = match_end;
+                self.search_pos = match_end;
 
                 // Handle zero-width matches to avoid infinite loops
                 if match_start == match_end {
-                    // For zero-width matches, we need to advance at least one byte
-                    // to avoid infinite loops
+                    // For zero-width matches, the next search needs to start at least
+                    // one character later to avoid infinite loops. The skipped character
+                    // is not part of a match, so current_pos stays: it is rejected next.
                     if match_end < self.haystack.len() {
                         // Find the next character boundary
                         let mut next_pos = match_end + 1;
@@ -826,7 +833,7 @@ mod pattern_impl {
                         {
                             next_pos += 1;
                         }
-                        self.current_pos = next_pos;
+                        self.search_pos = next_pos;
                     } else {
                         // We're at the end of the string
                         self.done = true;
